@@ -26,7 +26,7 @@ def gen(rng, tier):
         (3, [(1, 1), (1, 2)]),                                                   # self loop
         (5, [(1, 2), (2, 3), (4, 5)]),                                           # two trees
     ]
-    n_random = 70 if tier == 'quick' else 1200
+    n_random = 70 if tier == 'quick' else 8000
     specs = [(n, e, None) for n, e in shapes]
     for _ in range(n_random):
         n = rng.randint(2, 8)
